@@ -23,6 +23,17 @@ pub fn roots(tier: &str) -> Vec<VaultRoot> {
             }
         }
     }
+    // vaults on the scale of an 18-decimals asset: 1e24 base units, every amount far above 2^64
+    if tier == "quick" {
+        for cw20 in [false, true] {
+            v.push(VaultRoot { label: format!("cw20={}/fees1/first{}/preloan=true", cw20, 10u128.pow(24)), cw20, fees: FEES[1], first: 10u128.pow(24), pre_loan: true });
+        }
+    }
+    // vaults holding half of the 128-bit range (2^127 base units, plus the fees of one loan): anything that passes a balance
+    // through a narrower or signed type on one path only shows here
+    for cw20 in [false, true] {
+        v.push(VaultRoot { label: format!("cw20={}/fees1/first2^127/preloan=true", cw20), cw20, fees: FEES[1], first: 1u128 << 127, pre_loan: true });
+    }
     // a native vault over an ibc voucher denom
     v.push(VaultRoot { label: "cw20=false/fees1/first1000000/preloan=true/ibc-denom".into(), cw20: false, fees: FEES[1], first: 1_000_000, pre_loan: true });
     v
